@@ -988,7 +988,7 @@ class VCGen:
         return h, av, regs
 
     def loop(self, st, n, cond, inc, body):
-        ordinal = self.loopno; self.loopno += 1
+        ordinal = self.loop_ordinals[id(n)]          # source order (stable under unrolling of enclosing loops)
         spec = self.contract.loops.get(ordinal)
         line = n.get('line')
         if spec is None or spec.unroll is not None or not spec.invariant:
@@ -1128,7 +1128,7 @@ class VCGen:
 
     def unroll(self, st, n, cond, inc, body, limit):
         lim = limit if limit is not None else 16
-        out = {}; cur = st; ordinal = self.loopno - 1
+        out = {}; cur = st; ordinal = self.loop_ordinals[id(n)]
         for it in range(lim + 1):
             cv = self.truth(self.ev(cur, cond)) if cond else z3.BoolVal(True)
             s = z3.simplify(cv)
@@ -1346,6 +1346,19 @@ class VCGen:
                 for x in n.get('inner', []):
                     scan(x)
         scan(body)
+        self.loop_ordinals = {}
+
+        def number(n):
+            if isinstance(n, dict):
+                if n.get('kind') in ('ForStmt', 'WhileStmt', 'DoStmt'):
+                    self.loop_ordinals[id(n)] = len(self.loop_ordinals)
+                for x in n.get('inner', []):
+                    number(x)
+        number(body)
+        self.loopno = len(self.loop_ordinals)
+        for k in c.loops:
+            if k >= self.loopno:
+                raise Drift('%s: the sidecar has a loop %d but the function has %d loops' % (name, k, self.loopno))
         av = set(); am = []
         self.assigned(body, av, am, decls=False)
         for sname, sn in statics.items():
